@@ -392,6 +392,8 @@ class VBPTC12873:
     @staticmethod
     def set_parity(column: numpy.array) -> numpy.array:
         assert len(column) in (7, 8)
+        # parity is written into a private copy, not into the caller's column
+        column = numpy.array(column)
         if len(column) == 7:
             column = numpy.append(column, [0])
         column[7] = (
